@@ -143,6 +143,86 @@ func staticVC(P *Program, prop string) *VC {
 	return vc
 }
 
+// initialVC: facts about the state package initialisation leaves behind (the base case of the lifecycle
+// invariants, and what the axioms about package variables rest on).  Package initialisation has no
+// input, so executing it once -- TestGovcInitial of /verif/replay/log_bounded_test.go, injected into the
+// package with -overlay -- decides each fact exhaustively.
+var initialCache = map[string]string{}
+
+func initialVC(P *Program, prop, repo, verif, scratch string) *VC {
+	src := filepath.Join(verif, "replay", "log_bounded_test.go")
+	raw, err := os.ReadFile(src)
+	if err != nil || !strings.Contains(string(raw), "func TestGovcInitial(") {
+		return nil
+	}
+	out, done := initialCache[repo]
+	if !done {
+		ov := map[string]any{"Replace": map[string]string{
+			filepath.Join(repo, "zz_govc_bounded_test.go"):     src,
+			filepath.Join(repo, "zz_govc_replay_test.go"):      filepath.Join(verif, "replay", "log_replay_test.go"),
+			filepath.Join(repo, "zz_govc_replay_util_test.go"): filepath.Join(verif, "replay", "log_replay_util_test.go"),
+		}}
+		ovFile := filepath.Join(scratch, "overlay_initial.json")
+		writeJSON(ovFile, ov)
+		cmd := exec.Command("go", "test", "-overlay", ovFile, "-vet=off", "-count=1", "-timeout", "120s", "-v", "-run", "^TestGovcInitial$", ".")
+		cmd.Dir = repo
+		env := []string{}
+		for _, e := range os.Environ() {
+			if strings.HasPrefix(e, "GOSUMDB=") || strings.HasPrefix(e, "GOTOOLCHAIN=") || strings.HasPrefix(e, "GOFLAGS=") {
+				continue
+			}
+			env = append(env, e)
+		}
+		cmd.Env = append(env, "GOFLAGS=-mod=mod", "GOPROXY=off", "GOVC_INITIAL=1")
+		b, _ := cmd.CombinedOutput()
+		out = string(b)
+		initialCache[repo] = out
+	}
+	spec := &FuncSpec{Name: "initial-state", Props: []string{prop}, Replay: map[string]string{}, Callee: map[string]string{}}
+	vc := newVC(P, nil, spec)
+	vc.entry = vc.newState()
+	vc.name = "initial-state"
+	n := 0
+	for _, l := range strings.Split(out, "\n") {
+		ok := strings.HasPrefix(l, "INITIAL-OK ")
+		bad := strings.HasPrefix(l, "INITIAL-VIOLATION ")
+		if !ok && !bad {
+			continue
+		}
+		rest := strings.TrimPrefix(strings.TrimPrefix(l, "INITIAL-OK "), "INITIAL-VIOLATION ")
+		i, j := strings.Index(rest, "["), strings.Index(rest, "]")
+		if i < 0 || j < i {
+			continue
+		}
+		name := strings.TrimSpace(rest[:i])
+		props := strings.Split(rest[i+1:j], ",")
+		if !hasProp(props, prop) {
+			continue
+		}
+		n++
+		o := vc.oblige("initial", name, []string{prop}, "true", "true", "after package initialisation: "+name+" (decided by executing the initialisation, which takes no input)", 0)
+		o.Func = "initial-state"
+		if ok {
+			o.Static = "holds"
+		} else {
+			o.Static = "fails"
+			o.Text += ": " + strings.TrimSpace(rest[j+1:])
+		}
+	}
+	if n == 0 {
+		if !strings.Contains(out, "INITIAL-") {
+			// the run itself broke (does not compile against the tree, panicked)
+			o := vc.oblige("initial", "run", []string{prop}, "true", "true", "the initial-state facts could be evaluated", 0)
+			o.Func = "initial-state"
+			o.Static = "fails"
+			o.Text += ": " + firstLines(out, 8)
+			return vc
+		}
+		return nil
+	}
+	return vc
+}
+
 // storesField: does the store write field `field` of struct `structName` (directly, through a
 // sub-field, or by overwriting the whole struct)?
 func storesField(st *ssa.Store, structName, field string) bool {
@@ -289,7 +369,11 @@ func runCheck(prop, tier, repo, verif string, verbose, noReplay bool, evOut stri
 	if err != nil {
 		return engineFail("scratch", err)
 	}
-	defer os.RemoveAll(scratch)
+	if os.Getenv("GOVC_KEEP") == "" {
+		defer os.RemoveAll(scratch)
+	} else {
+		fmt.Fprintln(os.Stderr, "scratch kept:", scratch)
+	}
 	known := loadKnown(verif)
 
 	// vacuity guard: every prelude theory (with its dependencies) must be consistent on its own
@@ -327,6 +411,9 @@ func runCheck(prop, tier, repo, verif string, verbose, noReplay bool, evOut stri
 		}
 		if sv := staticVC(P, prop); sv != nil {
 			vcs = append(vcs, sv)
+		}
+		if iv := initialVC(P, prop, repo, verif, scratch); iv != nil {
+			vcs = append(vcs, iv)
 		}
 		if len(vcs) == 0 && len(errs) == 0 {
 			return 0, "no-functions", fmt.Errorf("no function under contract serves %s", prop)
@@ -521,15 +608,30 @@ func runCheck(prop, tier, repo, verif string, verbose, noReplay bool, evOut stri
 	// evidence
 	var funcs []string
 	assumed := map[string]bool{}
+	assumedClauses := map[string]bool{}
 	var notes []string
 	for _, vc := range vcs {
 		funcs = append(funcs, fmt.Sprintf("%s (%d obligations)", vc.name, perFunc[vc.name]))
 		for e := range vc.usedExterns {
 			assumed[e] = true
 		}
+		if vc.spec != nil {
+			for _, c := range vc.spec.Clauses {
+				if c.Assumed {
+					assumedClauses["assumed clause of "+vc.spec.Name+" (body not checked against it): "+c.Text] = true
+				}
+			}
+		}
 		for e := range vc.usedSpecs {
 			if sp := P.spec.Funcs[e]; sp != nil && sp.Trusted {
 				assumed[e] = true
+			}
+			if sp := P.spec.Funcs[e]; sp != nil && !sp.Trusted && !sp.Extern {
+				for _, c := range sp.Clauses {
+					if c.Assumed {
+						assumedClauses["assumed clause of "+e+" (body not checked against it): "+c.Text] = true
+					}
+				}
 			}
 		}
 		for _, n := range vc.notes {
@@ -540,6 +642,9 @@ func runCheck(prop, tier, repo, verif string, verbose, noReplay bool, evOut stri
 	var assumptions []string
 	for _, e := range sortedKeys(assumed) {
 		assumptions = append(assumptions, "assumed contract (not verified): "+e+" — "+specSummary(P.spec.Funcs[e]))
+	}
+	for _, e := range sortedKeys(assumedClauses) {
+		assumptions = append(assumptions, e)
 	}
 	for _, ax := range P.spec.Axioms {
 		if strings.HasPrefix(ax.Name, "lemma ") {
